@@ -11,9 +11,10 @@
  *   Proved: "accepted => the wf_peg clause of that opcode holds at P" (peg_wf_instr, the text the matcher assumes),
  *   header fields, has_backref, array pointers inside the block.
  *
- *   SLACK: the units peg.load.op.* give the block LOAD_SLACK readable words behind the bytecode area: the verifier reads
- *   operand words BEFORE it knows that they lie inside the bytecode (see the disabled units peg.load.exact.*, which use
- *   an exactly-sized bytecode area and FAIL on the pinned tree: heap out-of-bounds read, reported).
+ *   Two block shapes: peg.load.op.* use a typed block with the pad word and room for 2 constants (0..2 constants in the
+ *   image: the constant-index clauses need them); peg.load.exact.* use images WITHOUT constants in a packed block that ends
+ *   with the last bytecode word, so that ANY read behind the bytecode leaves the object - "only words inside the bytecode
+ *   are read while checking" (the verifier used to read operand words first: /repo 27b2ab1).
  */
 #ifdef VC_OWN_PANIC
 static int g_flags_live;                     /* op_flags allocated and not yet freed */
@@ -31,9 +32,6 @@ void janet_signalv(JanetSignal s, Janet m) PANIC_BODY
 
 #ifndef BL
 #define BL 16
-#endif
-#ifndef LOAD_SLACK
-#define LOAD_SLACK 0
 #endif
 static uint32_t g_blen;
 #define PEG_BLEN g_blen
@@ -57,7 +55,7 @@ Janet h_um_janet(JanetMarshalContext *ctx) {
 void h_um_ensure(JanetMarshalContext *ctx, size_t size) { g_ensure = size; g_ensured++; }
 /* The block is a TYPED object per bytecode length (header + uint32 words): symex then reads the opcode words written by
  * the loader back as constants and follows one switch case per iteration (a byte-array block makes every opcode read
- * symbolic: no result within the time limit). Non-TRUNC: room for the padding, 2 constants and LOAD_SLACK words. */
+ * symbolic: no result within the time limit). Non-TRUNC: room for the pad word and 2 constants. */
 #define PADW(n) ((n) + ((n) & 1))            /* constants start 8-aligned: one pad word behind an odd number of words */
 #ifdef LOAD_TRUNC
 /* packed: no tail padding behind the last word (a padded struct would hide a one-word overread for odd lengths) */
@@ -66,10 +64,10 @@ void h_um_ensure(JanetMarshalContext *ctx, size_t size) { g_ensure = size; g_ens
 #else
 /* constants are a member of their own: an 8-byte store into the uint32 array would turn the whole array into a byte
  * array for symex and make every opcode read symbolic again */
-#define BLK(n) static struct { JanetPeg hdr; uint32_t words[PADW(n) + (PADW(n) == 0)]; Janet consts[2]; uint32_t slack[LOAD_SLACK + 1]; } blk##n;
-#define PICK(n) case n: g_mem = (char *) &blk##n; g_alloc = sizeof(JanetPeg) + 4 * PADW(n) + 2 * sizeof(Janet) + 4 * LOAD_SLACK; \
+#define BLK(n) static struct { JanetPeg hdr; uint32_t words[PADW(n) + (PADW(n) == 0)]; Janet consts[2]; } blk##n;
+#define PICK(n) case n: g_mem = (char *) &blk##n; g_alloc = sizeof(JanetPeg) + 4 * PADW(n) + 2 * sizeof(Janet); \
   __CPROVER_assert(PADW(n) == 0 || (char *) blk##n.consts == g_mem + sizeof(JanetPeg) + 4 * PADW(n), "harness: constants member sits where the loader puts the constants"); \
-  for (unsigned k = 0; k < PADW(n); k++) blk##n.words[k] = nd_u32(); for (unsigned k = 0; k <= LOAD_SLACK; k++) blk##n.slack[k] = nd_u32(); blk##n.consts[0].u64 = nd_u64(); blk##n.consts[1].u64 = nd_u64(); break;
+  for (unsigned k = 0; k < PADW(n); k++) blk##n.words[k] = nd_u32(); blk##n.consts[0].u64 = nd_u64(); blk##n.consts[1].u64 = nd_u64(); break;
 #endif
 BLK(0) BLK(1) BLK(2) BLK(3) BLK(4) BLK(5) BLK(6) BLK(7) BLK(8) BLK(9) BLK(10) BLK(11) BLK(12) BLK(13) BLK(14) BLK(15) BLK(16)
 void *h_um_abstract(JanetMarshalContext *ctx, size_t size) {
